@@ -713,7 +713,7 @@ def run(ctx):
     ctx.rule("R11.guard", "every public API explored with a forbidden mode injected never reaches its driver call, "
              "never returns NC_NOERR and can return the documented error (helpers sanity_check/allreduce_error inlined)")
     ctx.rule("R11.dguard", "driver-level mode guards reject before any communication or I/O")
-    ctx.assume("multi-variable APIs (mput/mget) are examined with nvars >= 1")
+    ctx.assume("the number of variables / requests handed to a multi-variable API is not negative (zero is explored)")
     ctx.assume("classic-format file (pncp->format not NETCDF4); MPI communication calls succeed")
     ctx.assume("the full product automaton's return codes for arbitrary histories are not decided")
     ctx.rule("R4.rdonly", "every test of the open mode that depends on the NC_WRITE bit depends on no other bit (dispatcher, driver "
